@@ -660,3 +660,36 @@ def churn_scalars(n, salt):
         out.append(salt * 100003 + i if k == 0 else 'churn-%d-%d' % (salt, i)
                    if k == 1 else salt + i + 0.5)
     return out
+
+
+def buffer_bodies(rnd):
+    """Bytes-like payloads whose len() is NOT their byte count, or whose
+    shape is not flat: arrays and memoryviews of multi-byte items, multi-
+    dimensional views - small, on and around 4096 items / bytes, and above
+    the default frame-max.  (A frame's size field counts bytes.)"""
+    import array
+    out = []
+    for code in 'BHIQd':
+        isz = array.array(code).itemsize
+        for items in (1, 3, 16, 4095, 4096, 4097, 5000, 131072 // isz,
+                      131072 // isz + 1, 70000):
+            if code == 'd':
+                a = array.array(code, [float(i % 97) for i in range(items)])
+            else:
+                a = array.array(code, [(i * 37 + 5) % 251
+                                       for i in range(items)])
+            out.append(a)
+            if items in (3, 4096, 5000):
+                out.append(memoryview(a))
+    raw = bytes(rnd.randbytes(48))
+    for shape in ([4, 12], [12, 4], [2, 3, 8], [48, 1], [1, 48]):
+        out.append(memoryview(raw).cast('B', shape))
+    big = bytes(rnd.randbytes(4096 * 4))
+    out.append(memoryview(big).cast('B', [4096, 4]))
+    out.append(memoryview(big).cast('B', [4, 4096]))
+    out.append(memoryview(big).cast('I'))
+    out.append(memoryview(big).cast('Q'))
+    out.append(memoryview(big).cast('I', [64, 64]))
+    out.append(memoryview(bytearray(big)))
+    out.append(bytearray(big))
+    return out
